@@ -84,27 +84,26 @@ func (r *Router) route(s Sender, p stanza.Packet) {
 // SendMissingStz sends all stanzas that did not reach the server, according to the response to an ack request (see XEP-0198, acks)
 func SendMissingStz(lastSent int, s Sender, uaq *stanza.UnAckQueue) error {
 	uaq.RWMutex.Lock()
+	defer uaq.RWMutex.Unlock()
+	// Remove acknowledged stanzas from the queue. The Id of an element is its position among the stanzas sent
+	// on the session, which is what the server counts.
+	for len(uaq.Uslice) > 0 && uaq.Uslice[0].Id <= lastSent {
+		uaq.Pop()
+	}
 	if len(uaq.Uslice) <= 0 {
-		uaq.RWMutex.Unlock()
 		return nil
 	}
-	last := uaq.Uslice[len(uaq.Uslice)-1]
-	if last.Id > lastSent {
-		// Remove sent stanzas from the queue
-		uaq.PopN(lastSent - last.Id)
-		// Re-send non acknowledged stanzas
-		for _, elt := range uaq.PopN(len(uaq.Uslice)) {
-			eltStz := elt.(*stanza.UnAckedStz)
-			err := s.SendRaw(eltStz.Stz)
-			if err != nil {
-				return err
-			}
-
+	// Re-send non acknowledged stanzas
+	for _, elt := range uaq.PopN(len(uaq.Uslice)) {
+		eltStz := elt.(*stanza.UnAckedStz)
+		err := s.SendRaw(eltStz.Stz)
+		if err != nil {
+			return err
 		}
-		// Ask for updates on stanzas we just sent to the entity. Not sure I should leave this. Maybe let users call ack again by themselves ?
-		s.Send(stanza.SMRequest{})
+
 	}
-	uaq.RWMutex.Unlock()
+	// Ask for updates on stanzas we just sent to the entity. Not sure I should leave this. Maybe let users call ack again by themselves ?
+	s.Send(stanza.SMRequest{})
 	return nil
 }
 
